@@ -447,6 +447,9 @@ def r6(repo, res):
         ("phased het, alt first", [vcf_record(103, "T", ["A"], (1, 0))], None, {(103, "T>A"): 10}, {103: 10}),
         ("hom reference", [vcf_record(103, "T", ["A"], (0, 0))], None, {}, {}),
         ("het deletion (left-anchored record)", [vcf_record(103, "TTG", ["T"], (0, 1))], None, {(104, "delTG"): 10}, {104: 10}),
+        ("nested deletions in one record, shorter one called", [vcf_record(103, "TTG", ["T", "TT"], (0, 2))], None, {(105, "delG"): 10}, {105: 10}),
+        ("nested deletions in one record, both called", [vcf_record(103, "TTG", ["T", "TT"], (1, 2))], None, {(104, "delTG"): 10, (105, "delG"): 10},
+         {104: 10, 105: 10}),
         ("two alternates 1/2", [vcf_record(106, "C", ["A", "T"], (1, 2))], None, {(106, "C>A"): 10, (106, "C>T"): 10}, {106: 0}),
         ("second alternate 0/2", [vcf_record(106, "C", ["A", "T"], (0, 2))], None, {(106, "C>T"): 10}, {106: 10}),
         ("REF differs from the gene reference", [vcf_record(107, "G", ["T"], (0, 1))], None, {(107, "A>G"): 10, (107, "A>T"): 10}, {107: 0}),
@@ -553,6 +556,7 @@ def r7_exhaustive(repo, res):
         shapes.append((p0, others[2], [others[0], b]))             # REF differs from the gene reference; second ALT is the gene base
         shapes.append((p0, REF_SEQ[p0 - 100:p0 - 97], [b, b + "GG"]))  # deletion of two bases; unrelated complex allele
         shapes.append((p0, b, [b + "TT", others[0]]))              # insertion and substitution
+        shapes.append((p0, REF_SEQ[p0 - 100:p0 - 97], [b, REF_SEQ[p0 - 100:p0 - 98]]))  # nested deletions: two bases and one base
     n = 0
     bad = None
     for (p0, ref, alts), gt in itertools.product(shapes, gts):
